@@ -22,7 +22,9 @@ def _vc(name, variables=None, label=None):
 JEAIII = [_vc("jeaiii", {"WITH128": "0"}, "jeaiii")]
 JEAIII_T = [_vc("jeaiii", {"WITH128": "1"}, "jeaiii+u128")]
 WI_RADIX = [_vc("wi_radix", {"T": "u64", "BITS": "64"}, "wi_radix-u64"),
-            _vc("wi_radix", {"T": "u32", "BITS": "32"}, "wi_radix-u32")]
+            _vc("wi_radix", {"T": "u32", "BITS": "32"}, "wi_radix-u32"),
+            _vc("wi_radix", {"T": "u128", "BITS": "128"}, "wi_radix-u128"),
+            _vc("wi_u128", None, "wi_u128")]
 DIV128_Q = [_vc("div128", {"FEATURES": "radix"}, "div128-radix")]
 DIV128_T = [_vc("div128", {"FEATURES": "radix"}, "div128-radix"),
             _vc("div128", {"FEATURES": "power-of-two"}, "div128-pow2"),
